@@ -390,7 +390,8 @@ pub fn cli(args: &[String]) -> i32 {
                             "num": v.value.numer().to_string(), "den": v.value.denom().to_string(),
                             "decimal": v.value.display(&spec).to_string(), "has_numerator": v.unit.has_numerator(),
                             "unit_plural": v.unit.display(true).to_string(), "unit_singular": v.unit.display(false).to_string()}),
-            Err((m, _, _)) => json!({"k": "err", "msg": m, "u": [], "num": "", "den": "", "decimal": "", "has_numerator": false, "unit_plural": "", "unit_singular": ""}),
+            // msg1: the message up to its first line break, as the first line of the diagnostic shows it
+            Err((m, _, _)) => json!({"k": "err", "msg": m, "msg1": format!("error: {}", m).lines().next().unwrap_or("error: ")["error: ".len()..].to_string(), "u": [], "num": "", "den": "", "decimal": "", "has_numerator": false, "unit_plural": "", "unit_singular": ""}),
         }).collect();
         // description block as the library reports it: query, description, source description and url
         let mut descs = Vec::new();
